@@ -434,6 +434,32 @@ pub fn run(ctx: &Ctx) -> (Acc, String, bool) {
             }
         } else {
             let mut r = Rng::for_case(seed, i);
+            if i % 8 == 7 {
+                // one sub-value referenced twice or three times from the same parent (built once, shared):
+                // the doubled value against its flat spelling, against the single value and against a tripled one
+                let x = match r.below(3) {
+                    0 => V::Concat(Box::new(rand_tree(&mut r, 1)), Box::new(rand_tree(&mut r, 1))),
+                    1 => V::List((0..1 + r.below(3)).map(|_| rand_tree(&mut r, 1)).collect()),
+                    _ => rand_tree(&mut r, depth.min(3)),
+                };
+                let b = |v: &V| Box::new(v.clone());
+                let doubled = match r.below(4) {
+                    0 | 1 => V::Concat(b(&x), b(&x)),
+                    2 => V::Concat(Box::new(V::Concat(b(&x), b(&x))), b(&x)),
+                    _ => V::List(vec![x.clone(), x.clone()]),
+                };
+                let other = match r.below(4) {
+                    0 => reshape(&mut r, &doubled),
+                    1 => x.clone(),
+                    2 => V::Concat(Box::new(doubled.clone()), b(&x)),
+                    _ => doubled.clone(),
+                };
+                acc.count("kind_shared_twice");
+                check_case::<Simple>(&doubled, &other, Build::Shared, acc);
+                check_case::<Basic>(&doubled, &other, Build::Shared, acc);
+                acc.distinct.insert(fnv_str(&format!("{}|{}", doubled.show(), other.show())));
+                return;
+            }
             let t = rand_tree(&mut r, depth);
             let kind = r.below(5);
             let p = match kind {
@@ -473,7 +499,7 @@ pub fn run(ctx: &Ctx) -> (Acc, String, bool) {
         }
     });
     let rule = format!(
-        "exhaustive: all ordered pairs of {} values (27 leaves of 14 kinds + every pair/list/concatenation of width <= 2 over 9 base values), Equal and NotEqual on both stores, under a sentinel operand; random: {} trees of depth <= {} each paired with an identical copy / a reshaped equivalent (list<->concatenation regrouping, char<->1-char list, int<->float) / a one-point mutant / an unrelated tree, four construction orders (fresh, right-first, shared sub-values, junk in between), both operand orders, plus a third reshaped value for transitivity. Distinct = distinct (a,b) value pairs.",
+        "exhaustive: all ordered pairs of {} values (27 leaves of 14 kinds + every pair/list/concatenation of width <= 2 over 9 base values), Equal and NotEqual on both stores, under a sentinel operand; random: {} trees of depth <= {} each paired with an identical copy / a reshaped equivalent (list<->concatenation regrouping, char<->1-char list, int<->float) / a one-point mutant / an unrelated tree, four construction orders (fresh, right-first, shared sub-values, junk in between), every eighth case a value that holds one shared sub-value twice or three times (against its flat spelling, the single value, a longer repetition), both operand orders, plus a third reshaped value for transitivity. Distinct = distinct (a,b) value pairs.",
         n1, random_total, depth
     );
     (acc, rule, false)
